@@ -465,3 +465,16 @@ Theorem C06_ip6_fixpoint_partial :
      end).
 Proof. split; [exact ip6_fixpoint_nohbh|exact ip6_fixpoint_hbh]. Qed.
 Print Assumptions C06_ip6_fixpoint_partial.
+
+(* ... and for a jumbogram whose hop-by-hop header was created by FixLengths: the decoded layer
+   (hop-by-hop header with the jumbo option carrying the length) serialized again over the payload
+   gives the same bytes.  Still tested only (harness clause C06:fixpoint): the fixpoint for a
+   jumbogram whose layer already carried a hop-by-hop header. *)
+Theorem C06_ip6_fixpoint_jumbo_partial : forall l payload junk junk', ip6_okb l = true -> p_hbh l = None ->
+  bytes_ok payload -> 65535 < n6_len payload < 4294967296 - 8 ->
+  match ip6_roundtrip l payload junk with
+  | (Ok bytes, (l2, _, _)) => fst (ip6_serialize l2 payload true true junk') = Ok bytes
+  | _ => False
+  end.
+Proof. exact ip6_fixpoint_jumbo. Qed.
+Print Assumptions C06_ip6_fixpoint_jumbo_partial.
